@@ -174,7 +174,7 @@ func runTxScenarios(t *testing.T, scens []txScen, deadline time.Time) ([]txResul
 				r.Finish()
 				return r.Points, r.Choices, verdict, err
 			}
-			res, err := sched.Explore(exec, sc.bound, 0, func() bool { return time.Now().After(deadline) })
+			res, err := sched.Explore(exec, sc.bound, 0, func() bool { return report.RealNow().After(deadline) })
 			if err != nil {
 				ferr = fmt.Errorf("%s: %w", sc.name, err)
 				return
@@ -309,14 +309,14 @@ var c10StreamLayer func(t *testing.T, tier string, deadline time.Time) (map[stri
 func init() {
 	otherChecks["C10"] = func(t *testing.T, tier string) int {
 		t0 := time.Now()
-		results, err := runTxScenarios(t, c10Scenarios(tier), t0.Add(budget(tier)))
+		results, err := runTxScenarios(t, c10Scenarios(tier), report.RealNow().Add(schedBudget(tier)))
 		if err != nil {
 			fmt.Fprintln(os.Stderr, "C10 harness:", err)
 			return 2
 		}
 		cov, viols := txCoverage("C10", results)
 		if c10StreamLayer != nil && os.Getenv("VERIF_NO_SCHED") == "" {
-			c2, v2, err := c10StreamLayer(t, tier, t0.Add(budget(tier)))
+			c2, v2, err := c10StreamLayer(t, tier, report.RealNow().Add(schedBudget(tier)))
 			if err != nil {
 				fmt.Fprintln(os.Stderr, "C10 harness (stream waiters):", err)
 				return 2
@@ -502,7 +502,7 @@ func c12SchedScenarios(tier string) []txScen {
 
 func init() {
 	extraAfterHist["C04"] = func(t *testing.T, tier string) (map[string]any, []report.Viol, error) {
-		res, err := runTxScenarios(t, c04SchedScenarios(tier), time.Now().Add(budget(tier)))
+		res, err := runTxScenarios(t, c04SchedScenarios(tier), report.RealNow().Add(schedBudget(tier)))
 		if err != nil {
 			return nil, nil, err
 		}
@@ -510,7 +510,7 @@ func init() {
 		return cov, v, nil
 	}
 	extraAfterHist["C12"] = func(t *testing.T, tier string) (map[string]any, []report.Viol, error) {
-		res, err := runTxScenarios(t, c12SchedScenarios(tier), time.Now().Add(budget(tier)))
+		res, err := runTxScenarios(t, c12SchedScenarios(tier), report.RealNow().Add(schedBudget(tier)))
 		if err != nil {
 			return nil, nil, err
 		}
